@@ -46,3 +46,26 @@ def euler_delayed(model, dt, steps, S0=None, P=None):
         S = {p: S[p] + dt * d[p] for p in S}
         rows.append(dict(S))
     return rows
+
+
+def heun_delayed(model, dt, steps, S0=None, P=None):
+    """Heun with discrete edge delays: both stages of step k read the value a delayed source had at step k - D (like
+    both read input sample k); the source values recorded for later steps are those of the first stage."""
+    for p, lst in model.edge_src.items():
+        for (w, s, attrs) in lst:
+            d = (attrs or {}).get('delay')
+            if d:
+                attrs['_delay_steps'] = int(round(d / dt))
+    S = dict(S0 or model.y0())
+    rows = [dict(S)]
+    past = []
+    for k in range(steps):
+        def delayed(path, D, k=k):
+            return past[k - D][path] if k - D >= 0 else 0.0
+        d1, vals = model.field(S, P, t=k, delayed=delayed)
+        past.append(vals)
+        Sp = {p: S[p] + dt * d1[p] for p in S}
+        d2, _ = model.field(Sp, P, t=k, delayed=delayed)
+        S = {p: S[p] + dt / 2 * (d1[p] + d2[p]) for p in S}
+        rows.append(dict(S))
+    return rows
